@@ -2,12 +2,14 @@
 import copy
 import io
 
-from .. import cfggen, cfgrun, cfgstream, core, elabrun, schemafam as F
+from .. import cfggen, cfgrun, cfgstream, core, elabrun, pkggen, schemafam as F
 from ..sexp import enc
 
 RULE = ("rule-satisfying documents rendered from the generated schema family (must be accepted, and the loaded schema object "
         "must equal the expected elaboration); documents obtained by one rule-violating edit per listed rule at a random "
-        "applicable position, and pairs of edits (must be rejected with SchemaError when the schema is loaded). "
+        "applicable position, and pairs of edits (must be rejected with SchemaError when the schema is loaded); a derived "
+        "type taking the name of an earlier plain / abstract / derived type or of its base; the character-data elements "
+        "in every element, with every element among their text or after them (schema documents and imported components). "
         "non-trivial = a document with >= 1 section type; distinct by document text")
 
 
@@ -183,6 +185,224 @@ def edits(rng, sd):
     return out
 
 
+# ------------------------------------------------------------------ nesting with the character-data elements
+CDATA = ("description", "example", "metadefault", "default")
+STRUCT = ("import", "abstracttype", "sectiontype", "key", "multikey", "section", "multisection")
+# docs/schema.dtd, parent -> the elements that may appear directly inside it.  The four character-data elements are
+# (#PCDATA)*, <import> is EMPTY: no element may appear inside them
+DTD_CHILDREN = {
+    "schema": {"description", "metadefault", "example", "import", "sectiontype", "abstracttype",
+               "section", "key", "multisection", "multikey"},
+    "component": {"description", "sectiontype", "abstracttype"},
+    "sectiontype": {"description", "example", "section", "key", "multisection", "multikey"},
+    "abstracttype": {"description"},
+    "key": {"description", "metadefault", "example", "default"},
+    "multikey": {"description", "metadefault", "example", "default"},
+    "section": {"description", "example"},
+    "multisection": {"description", "example"},
+}
+# parent/child pairs on which the DTD and the loader's own table (BaseParser._allowed_parents, which the Lean model and
+# DocRules follow: it is regenerated into ZCV/Gen on every run) are known to differ on the pinned tree.  No expectation
+# is stated for them here; the documents are still explored and left to the comparison with the model
+UNSETTLED = {("schema", "metadefault"), ("section", "metadefault"), ("multisection", "metadefault"), ("component", "import")}
+
+_NEST_OPEN = {
+    "sectiontype": "<sectiontype name='npt9'>", "abstracttype": "<abstracttype name='npa9'>",
+    "key": "<key name='npk9'>", "multikey": "<multikey name='npm9'>",
+    "section": "<section type='nty9' name='nps9'>", "multisection": "<multisection type='nty9' name='*' attribute='npms9'>",
+}
+# elements that are fine by themselves (fresh names, a defined type): the only thing wrong with them is where they are
+_NEST_INNER = {
+    "key": "<key name='in9'/>", "multikey": "<multikey name='inm9'/>",
+    "section": "<section type='nty9' name='ins9'/>", "multisection": "<multisection type='nty9' name='*' attribute='inms9'/>",
+    "sectiontype": "<sectiontype name='inty9'/>", "abstracttype": "<abstracttype name='inat9'/>",
+    "import": "<import package='ZConfig.components.basic'/>",
+    "description": "<description>inner</description>", "example": "<example>inner</example>",
+    "metadefault": "<metadefault>inner</metadefault>", "default": "<default>inner</default>",
+}
+NEST_TYPE = "  <sectiontype name='nty9'/>\n"      # the type the <section> fragments refer to; goes first in the host
+_NEST_TEXTS = [("", ""), ("text ", ""), ("", " text"), ("some text ", " more text"), ("\n      ", "\n    "), ("a &lt; b ", "")]
+
+
+def nest_fragment(rng, top, P, C, E, pos):
+    """(fragment for the top level of a <top> document, expected verdict or None).
+    P: the element the character-data element C is written in (the document element itself, or a fresh
+    sectiontype / abstracttype / key / multikey / section / multisection); E: a further element, or None;
+    pos: 'inside' (E among the text of C), 'after' (E follows the closed C inside P), 'plain' (no E)"""
+    t1, t2 = rng.choice(_NEST_TEXTS)
+    inner = _NEST_INNER[E] if E else ""
+    if pos == "inside":
+        c = "<%s>%s%s%s</%s>" % (C, t1, inner, t2, C)
+    elif pos == "after":
+        c = "<%s>%s%s</%s>%s" % (C, t1, t2, C, inner)
+    else:
+        c = "<%s>%s%s</%s>" % (C, t1, t2, C)
+    if P == top:
+        frag = "  %s\n" % c
+    else:
+        frag = "%s%s</%s>" % (_NEST_OPEN[P], c, P)
+        wild = P == "key" and C == "default"
+        if wild:
+            # <default> elements belong to multikeys and to wildcard keys, where they carry the key they are for
+            frag = frag.replace("<key name='npk9'>", "<key name='+' attribute='npk9'>").replace("<default>", "<default key='dk9'>", 1)
+        if P in ("key", "multikey", "section", "multisection") and (top == "component" or wild or rng.random() < 0.5):
+            frag = "<sectiontype name='npo9'>%s</sectiontype>" % frag
+        frag = "  %s\n" % frag
+    if pos == "inside":
+        want = "reject"                         # (#PCDATA)*: whatever P, C and E are
+    elif (P, C) in UNSETTLED:
+        want = None
+    elif C not in DTD_CHILDREN[P]:
+        want = "reject"
+    elif pos == "plain":
+        want = "ok"
+    elif (P, E) in UNSETTLED:
+        want = None
+    else:
+        want = "ok" if E in DTD_CHILDREN[P] else "reject"
+    return frag, want
+
+
+def nest_parents(top):
+    return [top, "sectiontype", "abstracttype", "key", "multikey", "section", "multisection"]
+
+
+def nest_cases(top):
+    """(P, C, E, pos): every character-data element in every element (the whole table, legal or not); every element
+    inside every character-data element that is where it may be; every structural element after one"""
+    out = []
+    for P in nest_parents(top):
+        for C in CDATA:
+            out.append((P, C, None, "plain"))
+            if C not in DTD_CHILDREN[P]:
+                continue
+            for E in STRUCT + CDATA:
+                out.append((P, C, E, "inside"))
+            for E in STRUCT:
+                out.append((P, C, E, "after"))
+    return out
+
+
+def nesting_docs(rng, host_xml, cases):
+    """(rule, document, expected verdict or None, case) for the given cases, written into a schema document"""
+    out = []
+    host = _inject_first(host_xml, NEST_TYPE)
+    for P, C, E, pos in cases:
+        frag, want = nest_fragment(rng, "schema", P, C, E, pos)
+        doc = _inject_last(host, frag) if (P != "schema" or rng.random() < 0.5) else \
+            _inject_first(host_xml, NEST_TYPE + frag)       # the schema's own description: first or last child
+        out.append(("cdata-nesting-%s:%s" % (pos, C), doc, want, "%s/%s/%s" % (P, C, E)))
+    return out
+
+
+# ------------------------------------------------------------------ a derived type that takes an existing name
+def derived_duplicates(rng, sd, all_textual=False):
+    """'unique type names' where the SECOND definition is a derived type (<sectiontype extends=...>): it names an earlier
+    section type, abstract type, derived type, or its own base; written in the same or another letter case.
+    -> [(rule, SchemaD or text)], all to be refused"""
+    out = []
+    cons = _types(sd)
+    if cons:
+        for _ in range(2):
+            d = copy.deepcopy(sd)
+            base = rng.choice(cons)
+            victim = rng.choice(sd.types)
+            name = rng.choice([victim.name, victim.name, victim.name.upper(), cfggen._case_variant(rng, victim.name)])
+            abss = [t for t in sd.types if t.abstract and t.name != victim.name]
+            dup = F.TypeD(name, [], extends=base.name,
+                          implements=rng.choice(abss).name if (abss and rng.random() < 0.3) else None)
+            if rng.random() < 0.3:
+                dup.children.append(F.KeyD("zzown9", "string", attr="zzown9"))
+            # anywhere after both the base and the type whose name it takes
+            lo = max(d.types.index([t for t in d.types if t.name == n][0]) for n in (base.name, victim.name)) + 1
+            d.types.insert(rng.randint(lo, len(d.types)), dup)
+            kind = "abstract" if victim.abstract else "own-base" if victim.name == base.name else \
+                "derived" if victim.extends else "concrete"
+            out.append(("unique-type-names-derived:" + kind, d))
+    x = F.render_xml(sd)
+    v = rng.choice(["dvict9", "DVict9", "DVICT9"])
+    for kind, frag in (
+            ("concrete", "<sectiontype name='dbase9'/><sectiontype name='dvict9'/><sectiontype name='%s' extends='dbase9'/>" % v),
+            ("concrete", "<sectiontype name='dvict9'><key name='a9'/></sectiontype><sectiontype name='dbase9'><key name='b9'/></sectiontype>"
+                         "<sectiontype name='%s' extends='dbase9'><key name='c9'/></sectiontype>" % v),
+            ("abstract", "<abstracttype name='dvict9'/><sectiontype name='dbase9'/><sectiontype name='%s' extends='dbase9'/>" % v),
+            ("abstract", "<abstracttype name='dvict9'/><sectiontype name='dbase9'/><sectiontype name='%s' extends='dbase9' implements='dvict9'/>" % v),
+            ("derived", "<sectiontype name='dbase9'/><sectiontype name='dvict9' extends='dbase9'/><sectiontype name='%s' extends='dbase9'/>" % v),
+            ("derived", "<sectiontype name='dbase9'/><sectiontype name='dvict9' extends='dbase9'/><sectiontype name='%s' extends='dvict9'/>" % v),
+            ("own-base", "<sectiontype name='dvict9'/><sectiontype name='%s' extends='dvict9'/>" % v),
+            ("own-base", "<abstracttype name='dabs9'/><sectiontype name='dvict9' implements='dabs9'><key name='a9'/></sectiontype>"
+                         "<sectiontype name='%s' extends='dvict9' implements='dabs9'/>" % v)):
+        out.append(("unique-type-names-derived:" + kind, _inject_first(x, "  %s\n" % frag)))
+    return out[:-8] + rng.sample(out[-8:], 8 if all_textual else 3)
+
+
+def component_docs(rng, pk):
+    """the same two classes where the offending element is in a component (<import package=...>): ComponentParser shares
+    the nesting check and the type map with the schema's parser.  -> [(rule, schema document, expected, replay extras)]"""
+    import os
+    out = []
+
+    def comp(body):
+        name = pk.fresh_name("zcvc10p")
+        d = os.path.join(pk.root, name)
+        os.makedirs(d)
+        with open(os.path.join(d, "__init__.py"), "w") as f:
+            f.write("# generated\n")
+        text = "<component>\n%s</component>\n" % body
+        with open(os.path.join(d, "component.xml"), "w") as f:
+            f.write(text)
+        pk.names.append(name)
+        return name, text
+
+    for case in nest_cases("component"):
+        frag, want = nest_fragment(rng, "component", *case)
+        name, text = comp(frag)
+        out.append(("component-cdata-nesting-%s:%s" % (case[3], case[1]),
+                    "<schema>\n%s  <import package='%s'/>\n</schema>\n" % (NEST_TYPE, name), want,
+                    {"case": "%s/%s/%s" % case[:3], "component.xml": text}))
+    base = "  <sectiontype name='cbase9'><key name='k9'/></sectiontype>\n"
+    v = rng.choice(["cvict9", "CVict9", "CVICT9"])
+    for kind, first, second, want in (
+            ("concrete", base + "  <sectiontype name='cvict9'/>\n", "  <sectiontype name='%s' extends='cbase9'/>\n" % v, "reject"),
+            ("abstract", base + "  <abstracttype name='cvict9'/>\n", "  <sectiontype name='%s' extends='cbase9'/>\n" % v, "reject"),
+            ("derived", base + "  <sectiontype name='cvict9' extends='cbase9'/>\n",
+             "  <sectiontype name='%s' extends='cbase9'><key name='o9'/></sectiontype>\n" % v, "reject"),
+            ("own-base", base, "  <sectiontype name='%s' extends='cbase9'/>\n" % rng.choice(["cbase9", "CBase9", "CBASE9"]), "reject"),
+            ("plain", base + "  <sectiontype name='cvict9'/>\n", "  <sectiontype name='%s'/>\n" % v, "reject"),
+            ("fresh-name", base + "  <sectiontype name='cvict9'/>\n", "  <sectiontype name='cnew9' extends='cbase9'/>\n", "ok")):
+        rule = "component-unique-type-names-derived:" + kind
+        n2, t2 = comp(second)
+        out.append((rule, "<schema>\n%s  <import package='%s'/>\n</schema>\n" % (first, n2), want, {"component.xml": t2}))
+        n1, t1 = comp(first)
+        n2, t2 = comp(second)
+        out.append((rule, "<schema>\n  <import package='%s'/>\n  <import package='%s'/>\n</schema>\n" % (n1, n2), want,
+                    {"component.xml (first import)": t1, "component.xml (second import)": t2}))
+        n3, t3 = comp(first + second)
+        out.append((rule, "<schema>\n  <import package='%s'/>\n</schema>\n" % n3, want, {"component.xml": t3}))
+    return out
+
+
+def judge(ctx, rule, x, want, extra=None):
+    """load the document; the verdict the rules demand is `want` ('reject' = SchemaError while the schema is loaded,
+    'ok' = a schema is returned, None = no expectation stated here)"""
+    r = load_xml(x)
+    ctx.evaluations += 1
+    ctx.nontriv(x)
+    ctx.count("rule:%s:%s" % (rule, r[0]))
+    if want is None or (want == "reject" and r[0] == "schema-error") or (want == "ok" and r[0] == "ok"):
+        return r
+    rep = {"schema_xml": x, "rule": rule}
+    rep.update(extra or {})
+    if want == "ok":
+        ctx.violate("a rule-satisfying schema document (%s) is rejected: %s" % (rule, r[1:]), rep, signature="C10:valid-rejected:" + rule)
+    elif r[0] == "ok":
+        ctx.violate("rule '%s' violated but the schema document is accepted" % rule, rep, signature="C10:accepted:" + rule)
+    else:
+        ctx.violate("rule '%s' violated: the loader raised %s instead of SchemaError" % (rule, r[1]), rep,
+                    signature="C10:%s:%s" % (r[0], rule))
+    return r
+
+
 def _inject_last(xml, frag):
     i = xml.rindex("</schema>")
     return xml[:i] + frag + xml[i:]
@@ -208,7 +428,8 @@ def load_xml(xml):
 
 def _import_src_rules(ctx):
     """'unique type names' across <import src>: a type an imported document defines may not already exist in the importing
-    schema (defined locally before the import, or by an earlier import), whatever kind either is; a clean import is accepted"""
+    schema (defined locally before the import, or by an earlier import), whatever kind either is - plain, abstract or derived;
+    an imported document obeys the rules itself (derived duplicates, elements inside character data); a clean import is accepted"""
     import os
     import shutil
     import tempfile
@@ -221,6 +442,12 @@ def _import_src_rules(ctx):
         w("lib1.xml", "<schema><sectiontype name='server'><key name='port'/></sectiontype><sectiontype name='other1'/></schema>")
         w("lib2.xml", "<schema><abstracttype name='Server'/><sectiontype name='other2'/></schema>")
         w("lib3.xml", "<schema><sectiontype name='third'/></schema>")
+        # the second definition is a derived type: inside the imported document, and across two imports
+        w("lib4.xml", "<schema><sectiontype name='b4'/><sectiontype name='o4'/><sectiontype name='O4' extends='b4'/></schema>")
+        w("lib5.xml", "<schema><sectiontype name='b5'/><sectiontype name='Third' extends='b5'/></schema>")
+        # an element among the text of a character-data element of the imported document
+        w("lib6.xml", "<schema><sectiontype name='t6'><description>about t6 <key name='k6'/></description></sectiontype></schema>")
+        w("lib7.xml", "<schema><sectiontype name='t7'><description>about t7</description><key name='k7'><description>k</description></key></sectiontype></schema>")
         docs = [
             ("ok", "<schema><import src='lib1.xml'/><import src='lib3.xml'/><section type='server' name='s'/></schema>"),
             ("ok", "<schema><sectiontype name='mine'/><import src='lib2.xml'/></schema>"),
@@ -230,6 +457,12 @@ def _import_src_rules(ctx):
             ("reject", "<schema><import src='lib1.xml'/><import src='lib2.xml'/></schema>"),
             ("reject", "<schema><import src='lib2.xml'/><import src='lib1.xml'/></schema>"),
             ("reject", "<schema><import src='lib3.xml'/><sectiontype name='third'/></schema>"),
+            ("reject", "<schema><import src='lib4.xml'/></schema>"),
+            ("ok", "<schema><import src='lib5.xml'/></schema>"),
+            ("reject", "<schema><import src='lib3.xml'/><import src='lib5.xml'/></schema>"),
+            ("reject", "<schema><import src='lib3.xml'/><sectiontype name='mine5'/><sectiontype name='THIRD' extends='mine5'/></schema>"),
+            ("reject", "<schema><import src='lib6.xml'/></schema>"),
+            ("ok", "<schema><import src='lib7.xml'/><section type='t7' name='s'/></schema>"),
         ]
         for want, xml in docs:
             w("top.xml", xml)
@@ -244,9 +477,9 @@ def _import_src_rules(ctx):
             ctx.nontriv(("import-src", xml))
             ctx.count("import-src:%s:%s" % (want, got))
             if got != want:
-                ctx.violate("unique type names across <import src>: %s is %s (expected %s)" % (xml, got, want),
-                            {"schema_xml": xml, "lib1.xml": open(os.path.join(root, "lib1.xml")).read(),
-                             "lib2.xml": open(os.path.join(root, "lib2.xml")).read(), "lib3.xml": open(os.path.join(root, "lib3.xml")).read()},
+                ctx.violate("rules across <import src> (unique type names, nesting): %s is %s (expected %s)" % (xml, got, want),
+                            dict({"schema_xml": xml}, **{f: open(os.path.join(root, f)).read()
+                                                         for f in sorted(os.listdir(root)) if f.startswith("lib") and f in xml}),
                             signature="C10:import-src-type-names:%s->%s" % (want, got))
     finally:
         shutil.rmtree(root, ignore_errors=True)
@@ -257,7 +490,18 @@ def run(ctx):
     rng = ctx.rng
     n = 400 if ctx.thorough() else 60
     all_docs = []
-    for _ in range(n):
+    cases = nest_cases("schema")
+    # the whole table of character-data placements, and every kind of derived duplicate, once in a document that holds
+    # nothing else (first, so that a replay shows the small document) ...
+    minimal = F.SchemaD()
+    for rule, x, want, case in nesting_docs(rng, F.render_xml(minimal), cases):
+        all_docs.append(x)
+        judge(ctx, rule, x, want, {"case": case})
+    for rule, x in derived_duplicates(rng, minimal, True):
+        all_docs.append(x)
+        judge(ctx, rule, x, "reject")
+    # ... then inside the documents of the family
+    for i in range(n):
         sd = cfggen.gen_schema(rng, handlers=rng.random() < 0.3)
         xml = F.render_xml(sd)
         all_docs.append(xml)
@@ -269,12 +513,7 @@ def run(ctx):
             continue
         if enc(F.elaborate(sd)) != enc(F.digest(r[1])):
             ctx.disagree("schema-digest", {"schema_xml": xml}, "digest", "expected elaboration")
-        es = edits(rng, sd)
-        pairs = []
-        if len(es) >= 2 and rng.random() < 0.3:
-            a, b = rng.sample([e for e in es if isinstance(e[1], str)], 2)
-            # compose two textual injections
-            fa = a[1][a[1].rindex("</schema>") - 200: a[1].rindex("</schema>")]
+        es = edits(rng, sd) + derived_duplicates(rng, sd, ctx.thorough())
         for rule, doc in es:
             x = doc if isinstance(doc, str) else F.render_xml(doc)
             all_docs.append(x)
@@ -293,10 +532,21 @@ def run(ctx):
             else:
                 ctx.violate("rule '%s' violated: the loader raised %s instead of SchemaError" % (rule, r2[1]), {"schema_xml": x, "rule": rule},
                             signature="C10:%s:%s" % (r2[0], rule))
+        # character-data elements in this document: some cases of the table below, at random
+        for rule, x, want, case in nesting_docs(rng, xml, rng.sample(cases, len(cases) if (ctx.thorough() and i % 20 == 0) else 8)):
+            all_docs.append(x)
+            judge(ctx, rule, x, want, {"case": case})
     _import_src_rules(ctx)
-    # the Lean model of the schema loader (ZCV/Model/Elab.lean) on every one of these documents: same accept/reject,
-    # same exception class, the model's reason contained in the real message, equal schema object when accepted
-    elabrun.compare(ctx, "c10", all_docs)
+    pk = pkggen.PkgRoot()
+    try:
+        for rule, x, want, extra in component_docs(rng, pk):
+            all_docs.append(x)
+            judge(ctx, rule, x, want, extra)
+        # the Lean model of the schema loader (ZCV/Model/Elab.lean) on every one of these documents: same accept/reject,
+        # same exception class, the model's reason contained in the real message, equal schema object when accepted
+        elabrun.compare(ctx, "c10", all_docs)
+    finally:
+        pk.close()
     ctx.sample({"rules": sorted({e[0] for e in edits(rng, cfggen.gen_schema(rng))})})
     return core.finish(ctx, obligations, discharged, names, RULE,
                        "lake build ZCV.Props.C10 && lake env lean ZCV/Audit/C10.lean",
